@@ -1,54 +1,16 @@
-"""Per-property configuration of check.py: suites (name, quick count, thorough count),
-what is proved, what is modelled rather than verified."""
+"""Per-property configuration of check.py, one JSON file per property under bin/props/
+(suites = [name, quick count, thorough count]; proved_scope / not_proved; modelled; assumptions)."""
+import glob
+import json
+import os
 
 EXTERNAL = [
     "modelled, not verified: xmlparser 0.13.6 tokenizer, indextree 4.7.2 arena, encoding_rs/xhtmlchardet decoders, genawaiter, ahash (DESIGN.md section 6)",
 ]
 
-PROPS = {
-    "C01": {
-        "suites": [("entity", 3000, 60000)],
-        "show_constants": True,
-        "proved_scope": "character level: parse_content(serialize_text s)=s and parse_content(serialize_attribute s)=s for every string; escaped output free of raw '<' / '\"' / TAB / LF / CR",
-        "not_proved": "tree level (C01_main): serializer + tokenizer contract + builder",
-        "modelled": EXTERNAL,
-        "assumptions": ["NoopNormalizer (identity) is the normalizer"],
-    },
-    "C14": {
-        "suites": [("entity", 3000, 60000)],
-        "show_constants": True,
-        "proved_scope": "character level: CDATA sections of serialize_cdata concatenate to the input and contain no ]]>; unescaped_gt text decodes to the input and contains no ]]>",
-        "not_proved": "tree level option independence; Pretty placement rules",
-        "modelled": EXTERNAL,
-        "assumptions": ["NoopNormalizer (identity) is the normalizer"],
-    },
-    "C04": {
-        "suites": [("forest", 300, 6000)],
-        "proved_scope": "invariant Forest.inv defined (decidable); proved: holds initially, preserved by set_text_consolidation; value updates never create, lose or reorder a handle. The invariant is additionally evaluated on the model state after every step of every correspondence history and compared with an independent validator on the real forest",
-        "not_proved": "preservation of Forest.inv by each moving / creating / removing operation (C04_step), hence C04_reach by induction; monotonicity of is_removed (holds in the model by construction of fresh handles, not yet stated as a theorem)",
-        "modelled": EXTERNAL + ["handles are creation-order numbers; indextree slot reuse and the 15-bit stamp are below the model"],
-        "assumptions": ["arguments are live handles"],
-    },
-    "C06": {
-        "suites": [("forest", 300, 6000)],
-        "proved_scope": "every refusal produced by the argument checks (structure check, sibling reference check, replace / element_wrap / element_unwrap pre-checks) returns the forest unchanged; same-position append is the identity",
-        "not_proved": "that no error can arise after the checks (late NodeError unreachable under the invariant) and absence of panics under the invariant",
-        "modelled": EXTERNAL,
-        "assumptions": ["arguments are live handles"],
-    },
-    "C11": {
-        "suites": [("forest", 300, 6000)],
-        "proved_scope": "updating an existing key keeps every node and handle in place; removing an absent key is the identity; element-only accessors panic without change on non-elements. Agreement of the read-only and the mutable view is checked on the implementation after every step (both Rust copies against the model's single definition)",
-        "not_proved": "refinement of insert/remove/clear/insert_node to an insertion-ordered association list (C11_refine) and C11_order",
-        "modelled": EXTERNAL,
-        "assumptions": ["arguments are live handles"],
-    },
-    "C12": {
-        "suites": [("fclone", 400, 6000), ("forest", 300, 6000)],
-        "proved_scope": "TODO",
-        "not_proved": "TODO",
-        "modelled": EXTERNAL + ["handles are creation-order numbers; indextree slot reuse is below the model",
-                                "inherited_prefixes returns a hash map: its iteration order is a parameter of the model (the harness reports the order it observed, the driver checks it is a permutation)"],
-        "assumptions": ["the source is a live handle of a forest satisfying Forest.Inv"],
-    },
-}
+PROPS = {}
+for _path in sorted(glob.glob(os.path.join(os.path.dirname(os.path.abspath(__file__)), "props", "C*.json"))):
+    with open(_path, encoding="utf-8") as _f:
+        _cfg = json.load(_f)
+    _cfg["suites"] = [tuple(s) for s in _cfg["suites"]]
+    PROPS[os.path.basename(_path)[:-5]] = _cfg
